@@ -11,6 +11,7 @@
 #include <fcppt/nonmovable.hpp>
 #include <fcppt/parse/base_impl.hpp>
 #include <fcppt/parse/base_unique_ptr.hpp>
+#include <fcppt/parse/grammar_parse_stream.hpp>
 #include <fcppt/parse/make_base.hpp>
 
 void c02_run_all(c02::runner &);   // generated (c02_gen_all.cpp)
@@ -82,34 +83,167 @@ private:
   typename gb::template base_type<int> e_;
 };
 
+// ---- recursive grammar 9003 (space skipper):  S -> ( 'a' S 'b' )*   balanced parentheses as a forest
+}
+namespace c02
+{
+struct par
+{
+  std::vector<fcppt::recursive<par>> kids;
+};
+inline void enc(flat &o, par const &t)
+{
+  o.push_back(9);
+  enc(o, t.kids);
+}
+
+// ---- grammar 9004: the JSON grammar of test/parse/json.cpp (five mutually recursive nonterminals held
+// in base_unique_ptr, make_base, make_recursive, separator, convert_if, construct); objects are kept as
+// vectors of entries, a repeated key is the convert_if error ("Double insert" in the test)
+template <typename Ch>
+struct jvalue;
+template <typename Ch>
+using jarray = std::vector<fcppt::recursive<jvalue<Ch>>>;
+template <typename Ch>
+using jentries = std::vector<fcppt::tuple::object<std::basic_string<Ch>, fcppt::recursive<jvalue<Ch>>>>;
+template <typename Ch>
+struct jvalue
+{
+  using type = fcppt::variant::object<jnull, bool, int, std::basic_string<Ch>, jarray<Ch>, jentries<Ch>>;
+  explicit jvalue(type &&_impl) : impl{std::move(_impl)} {}
+  type impl;
+};
+template <typename Ch>
+void enc(flat &o, jvalue<Ch> const &v)
+{
+  o.push_back(9);
+  enc(o, v.impl);
+}
+}
+namespace
+{
+template <typename Ch>
+class par_grammar : public p::grammar<c02::par, Ch, space_skipper<Ch>>
+{
+  FCPPT_NONMOVABLE(par_grammar);
+  using gb = p::grammar<c02::par, Ch, space_skipper<Ch>>;
+
+public:
+  par_grammar()
+      : gb{fcppt::make_cref(s_), c02::sk_space<Ch>()},
+        s_{gb::make_base(p::construct<c02::par>(
+            *(p::basic_literal<Ch>{Ch('a')} >> p::make_recursive(fcppt::make_cref(s_)) >> p::basic_literal<Ch>{Ch('b')})))}
+  {
+  }
+  ~par_grammar() = default;
+
+private:
+  typename gb::template base_type<c02::par> s_;
+};
+
+template <typename Ch>
+std::basic_string<Ch> lit_string(char const *_s)
+{
+  std::basic_string<Ch> r;
+  for (; *_s != 0; ++_s) r.push_back(static_cast<Ch>(*_s));
+  return r;
+}
+
+template <typename Ch>
+using json_start = fcppt::variant::object<c02::jarray<Ch>, c02::jentries<Ch>>;
+
+template <typename Ch>
+class json_grammar : public p::grammar<json_start<Ch>, Ch, space_skipper<Ch>>
+{
+  FCPPT_NONMOVABLE(json_grammar);
+  using gb = p::grammar<json_start<Ch>, Ch, space_skipper<Ch>>;
+  using str = std::basic_string<Ch>;
+  using value = c02::jvalue<Ch>;
+  using entries = c02::jentries<Ch>;
+
+public:
+  json_grammar()
+      : gb{fcppt::make_cref(start_), c02::sk_space<Ch>()},
+        string_{gb::make_base(
+            p::basic_literal<Ch>{Ch('"')} >> p::make_lexeme(*~p::basic_char_set<Ch>{Ch('"')}) >> p::basic_literal<Ch>{Ch('"')})},
+        value_{gb::make_base(p::construct<value>(
+            p::convert_const{p::basic_string<Ch>{lit_string<Ch>("null")}, c02::jnull{}} |
+            (p::convert_const{p::basic_string<Ch>{lit_string<Ch>("true")}, true} |
+             p::convert_const{p::basic_string<Ch>{lit_string<Ch>("false")}, false}) |
+            p::int_<int>{} | fcppt::make_cref(string_) | fcppt::make_cref(array_) | fcppt::make_cref(object_)))},
+        object_{gb::make_base(p::make_convert_if(
+            p::basic_literal<Ch>{Ch('{')} >>
+                p::separator{
+                    fcppt::make_cref(string_) >> p::basic_literal<Ch>{Ch(':')} >> p::make_recursive(fcppt::make_cref(value_)),
+                    p::basic_literal<Ch>{Ch(',')}} >>
+                p::basic_literal<Ch>{Ch('}')},
+            [](entries &&_e) -> p::result<Ch, entries> {
+              for (std::size_t i = 0; i < _e.size(); ++i)
+                for (std::size_t j = i + 1; j < _e.size(); ++j)
+                  if (fcppt::tuple::get<0>(_e[i]) == fcppt::tuple::get<0>(_e[j]))
+                    return fcppt::either::make_failure<entries>(p::error<Ch>{lit_string<Ch>("Double insert")});
+              return p::make_success<Ch>(std::move(_e));
+            }))},
+        array_{gb::make_base(
+            p::basic_literal<Ch>{Ch('[')} >>
+            p::separator{p::make_recursive(fcppt::make_cref(value_)), p::basic_literal<Ch>{Ch(',')}} >>
+            p::basic_literal<Ch>{Ch(']')})},
+        start_{gb::make_base(fcppt::make_cref(array_) | fcppt::make_cref(object_))}
+  {
+  }
+  ~json_grammar() = default;
+
+private:
+  typename gb::template base_type<str> string_;
+  typename gb::template base_type<value> value_;
+  typename gb::template base_type<entries> object_;
+  typename gb::template base_type<c02::jarray<Ch>> array_;
+  typename gb::template base_type<json_start<Ch>> start_;
+};
+
+// grammar_parse_string and grammar_parse_stream on every input
 template <typename Ch, typename Grammar>
-void run_grammar(c02::runner &_r, long long const _g, char const *const _skname)
+void run_grammar(c02::runner &_r, long long const _g, char const *const _skname, std::vector<std::vector<long long>> const &_inputs)
 {
   if (_r.only_g >= 0 && (_r.only_g != _g || _r.only_sk != _skname)) return;
   Grammar const grammar{};
-  for (auto const &in : _r.inputs)
+  for (auto const &in : _inputs)
   {
     c02::probe_log().clear();
-    vj::begin_call(c02::prefix(_g, _skname, c02::ch_id<Ch>(), in));
+    vj::begin_call(c02::prefix(_g, _skname, c02::ch_id<Ch>(), "string", in));
     c02::log_result<Ch>(p::grammar_parse_string(c02::to_string<Ch>(in), grammar));
+    ++_r.records;
+    c02::probe_log().clear();
+    vj::begin_call(c02::prefix(_g, _skname, c02::ch_id<Ch>(), "stream", in));
+    std::basic_istringstream<Ch> stream{c02::to_string<Ch>(in)};
+    stream.unsetf(std::ios_base::skipws);
+    try
+    {
+      c02::log_result<Ch>(p::grammar_parse_stream(stream, grammar));
+    }
+    catch (...)
+    {
+      c02::log_escaped();
+    }
     ++_r.records;
   }
 }
 
-void enumerate(std::vector<std::vector<long long>> &out, int maxlen)
+void enumerate(std::vector<std::vector<long long>> &out, std::vector<long long> const &syms, int maxlen)
 {
-  std::vector<long long> const syms{97, 98, 32, 48};
+  std::size_t const n = syms.size();
   for (int len = 0; len <= maxlen; ++len)
   {
-    unsigned long long const count = 1ULL << (2 * len);
+    unsigned long long count = 1;
+    for (int i = 0; i < len; ++i) count *= n;
     for (unsigned long long idx = 0; idx < count; ++idx)
     {
       std::vector<long long> t;
       unsigned long long x = idx;
       for (int i = 0; i < len; ++i)
       {
-        t.push_back(syms[x % 4U]);
-        x /= 4U;
+        t.push_back(syms[x % n]);
+        x /= n;
       }
       out.push_back(t);
     }
@@ -124,16 +258,21 @@ try
   vj::open(argv[1]);
   c02::runner r;
   int const maxlen = std::atoi(argv[2]);
-  bool const wide = std::atoi(argv[3]) != 0;
-  // inputs: file with one JSON array of code points per line (extra inputs), after the
-  // exhaustive enumeration up to maxlen over {a, b, space, 0}
-  enumerate(r.inputs, maxlen);
+  // WIDE: bit 0 = wchar_t for the recursive grammars, bits 1.. = stream_mod - 1
+  bool const wide = (std::atoi(argv[3]) & 1) != 0;
+  r.stream_mod = (std::atoi(argv[3]) >> 1) + 1;
+  // inputs: the exhaustive enumeration up to maxlen over {a, b, space, 0} (for grammar 9004: over the
+  // JSON alphabet), then the extra inputs of the file: one {"set":"std"|"json"|"both","s":[code points]} per line
+  std::vector<std::vector<long long>> json_inputs;
+  enumerate(r.inputs, {97, 98, 32, 48}, maxlen);
+  enumerate(json_inputs, {'[', ']', '{', '}', ',', ':', '"', '1', ' ', 'a'}, maxlen);
   for (std::string const &l : vj::read_lines(argv[4]))
   {
     vj::VP const v{vj::parse(l)};
-    std::vector<long long> t;
-    for (auto const &c : v->a) t.push_back(c->n);
-    r.inputs.push_back(t);
+    std::vector<long long> const t{v->nums("s")};
+    std::string const &set{v->str("set")};
+    if (set != "json") r.inputs.push_back(t);
+    if (set != "std") json_inputs.push_back(t);
   }
   if (argc >= 7)
   {
@@ -148,13 +287,20 @@ try
   c02_run_all(r);
   if (r.shard == 0)
   {
-    run_grammar<char, tree_grammar<char>>(r, 9001, "eps");
-    run_grammar<char, depth_grammar<char>>(r, 9002, "space");
+    run_grammar<char, tree_grammar<char>>(r, 9001, "eps", r.inputs);
+    run_grammar<char, depth_grammar<char>>(r, 9002, "space", r.inputs);
+    run_grammar<char, par_grammar<char>>(r, 9003, "space", r.inputs);
+    if (wide)
+    {
+      run_grammar<wchar_t, tree_grammar<wchar_t>>(r, 9001, "eps", r.inputs);
+      run_grammar<wchar_t, depth_grammar<wchar_t>>(r, 9002, "space", r.inputs);
+      run_grammar<wchar_t, par_grammar<wchar_t>>(r, 9003, "space", r.inputs);
+    }
   }
-  if (wide && r.shard == 0)
+  if (r.shard == 1 % r.nshards)
   {
-    run_grammar<wchar_t, tree_grammar<wchar_t>>(r, 9001, "eps");
-    run_grammar<wchar_t, depth_grammar<wchar_t>>(r, 9002, "space");
+    run_grammar<char, json_grammar<char>>(r, 9004, "space", json_inputs);
+    if (wide) run_grammar<wchar_t, json_grammar<wchar_t>>(r, 9004, "space", json_inputs);
   }
   vj::close();
   return 0;
